@@ -112,8 +112,10 @@ void harness_replay(void)
 	current_lp = &A;
 	double v1 = draw();
 	struct rng_ctx after1 = ra;
-	double v1b = draw(); /* the LP goes on (speculatively) */
-	(void)v1b;
+	if(vin_bool()) { /* the LP may go on speculatively (any parity of draws before the rollback) */
+		double v1b = draw();
+		(void)v1b;
+	}
 	current_lp = &B; /* another LP hosted by the same thread draws in between */
 	(void)draw();
 	ra = r0; /* rollback: the LP's generator is restored from the checkpoint */
